@@ -13,15 +13,21 @@ import (
 
 var closed = map[uintptr]bool{}
 
+//go:norace
 func ptr(c interface{}) uintptr { return reflect.ValueOf(c).Pointer() }
 
 // Reset forgets closed channels (called at the start of every execution).
+//
+//go:norace
 func Reset() { closed = map[uintptr]bool{} }
 
+//go:norace
 func init() { sched.OnRunStart = append(sched.OnRunStart, Reset) }
 
+//go:norace
 func isClosed(c interface{}) bool { return closed[ptr(c)] }
 
+//go:norace
 func recvReady(c interface{}) bool {
 	v := reflect.ValueOf(c)
 	if v.IsNil() {
@@ -30,6 +36,7 @@ func recvReady(c interface{}) bool {
 	return v.Len() > 0 || closed[v.Pointer()]
 }
 
+//go:norace
 func sendReady(c interface{}) bool {
 	v := reflect.ValueOf(c)
 	if v.IsNil() {
@@ -45,6 +52,8 @@ func sendReady(c interface{}) bool {
 }
 
 // Send is `c <- v`.
+//
+//go:norace
 func Send[T any](c chan<- T, v T) {
 	if !sched.Active() {
 		c <- v
@@ -61,12 +70,16 @@ func Send[T any](c chan<- T, v T) {
 }
 
 // Recv is `<-c`.
+//
+//go:norace
 func Recv[T any](c <-chan T) T {
 	v, _ := Recv2(c)
 	return v
 }
 
 // Recv2 is `v, ok := <-c`.
+//
+//go:norace
 func Recv2[T any](c <-chan T) (T, bool) {
 	if !sched.Active() {
 		v, ok := <-c
@@ -79,6 +92,7 @@ func Recv2[T any](c <-chan T) (T, bool) {
 	return take(c)
 }
 
+//go:norace
 func take[T any](c <-chan T) (T, bool) {
 	if reflect.ValueOf(c).Len() > 0 {
 		v := <-c
@@ -89,6 +103,8 @@ func take[T any](c <-chan T) (T, bool) {
 }
 
 // Close is `close(c)`.
+//
+//go:norace
 func Close[T any](c chan<- T) {
 	if !sched.Active() {
 		close(c)
@@ -103,6 +119,8 @@ func Close[T any](c chan<- T) {
 }
 
 // TimerSend delivers a timer tick (called from the controller: no scheduling point).
+//
+//go:norace
 func TimerSend[T any](c chan T, v T) {
 	select {
 	case c <- v:
@@ -121,7 +139,10 @@ type SendOp[T any] struct {
 	V T
 }
 
+//go:norace
 func (o *SendOp[T]) ready() bool { return sendReady(o.C) }
+
+//go:norace
 func (o *SendOp[T]) run() {
 	if isClosed(o.C) {
 		panic("send on closed channel")
@@ -135,14 +156,22 @@ type RecvOp[T any] struct {
 	Ok  bool
 }
 
+//go:norace
 func (o *RecvOp[T]) ready() bool { return recvReady(o.C) }
-func (o *RecvOp[T]) run()        { o.Val, o.Ok = take(o.C) }
 
+//go:norace
+func (o *RecvOp[T]) run() { o.Val, o.Ok = take(o.C) }
+
+//go:norace
 func NewSend[T any](c chan<- T, v T) *SendOp[T] { return &SendOp[T]{C: c, V: v} }
-func NewRecv[T any](c <-chan T) *RecvOp[T]      { return &RecvOp[T]{C: c} }
+
+//go:norace
+func NewRecv[T any](c <-chan T) *RecvOp[T] { return &RecvOp[T]{C: c} }
 
 // Select performs a select over the cases and returns the index of the arm taken (-1 = default).
 // Which ready arm is taken is an explorer choice.
+//
+//go:norace
 func Select(hasDefault bool, cases ...Case) int {
 	if !sched.Active() {
 		return realSelect(hasDefault, cases)
@@ -174,6 +203,8 @@ func Select(hasDefault bool, cases ...Case) int {
 }
 
 // realSelect runs the select with the real runtime (free-running mode).
+//
+//go:norace
 func realSelect(hasDefault bool, cases []Case) int {
 	sc := make([]reflect.SelectCase, 0, len(cases)+1)
 	for _, c := range cases {
